@@ -355,8 +355,11 @@ fn assert_calls(fam: &Family, st: &EnumState) -> Vec<Call> {
         for ak in &fam.assert_kinds {
             match ak {
                 AK::Connect => {
-                    for t in operand_tuples(fam, st, 2, false, true, true) {
-                        if t[0] > t[1] || t[0] == t[1] && !matches!(t[0], Opnd::NewPub) {
+                    // staged families with private inputs may introduce one in a connect
+                    // (a private value pinned to a computed one)
+                    let new_priv = fam.max_priv > 0 && !fam.stages.is_empty();
+                    for t in operand_tuples(fam, st, 2, new_priv, true, true) {
+                        if t[0] > t[1] || t[0] == t[1] && !matches!(t[0], Opnd::NewPub | Opnd::NewPriv) {
                             continue; // unordered pair, no self-connect
                         }
                         if matches!(t[0], Opnd::C(_)) && matches!(t[1], Opnd::C(_)) {
